@@ -473,3 +473,73 @@ Theorem C14_judge_accepts_subrequest_partial : forall b regs W ri,
   forall tweens, judge regs W ri (run_request_sub_m (spec_params_b b) W ri tweens) = true.
 Proof. exact judge_accepts_sub. Qed.
 Print Assumptions C14_judge_accepts_subrequest_partial.
+
+(* ------------------------------------------------------------------ *)
+(* END-TO-END (Proofs/C14_f.v): the trace run_C14 computes for a request -- regenerated functions, regenerated
+   constants ([code_params], [subrequest_use_tweens_default]) -- is accepted by the WHOLE judge the check applies to the
+   implementation's trace (rendering judge && raising-site judge), in the ordinary scenarios and in the subrequest
+   scenario.  Non-vacuity: Example model_trace_judged_nonvacuous. *)
+Require Import Verif.Proofs.C14_f Verif.Proofs.C14_g.
+
+Theorem C14_model_trace_judged_partial : forall regs W ri sub,
+  no_pm code_params W ->
+  match sub with
+  | Some _ => sec_of (ri_under ri) = true
+  | None => permissive_checks_predicates = true \/ sec_of (ri_under ri) = true
+  end ->
+  (forall e, spec_ok exc_classifier_id regs (exc_request code_params W ri e)
+               (call_view (w_reg W) exc_classifier_id (exc_request code_params W ri e)) = true) ->
+  isa W cn_Exception ctx_resource = false ->
+  (forall site, In site [site_under; site_tween] ->
+     isa W cn_HTTPNotFound (fresh_nf site) = true /\ isa W cn_HTTPNotFound (fresh_pme site) = true
+     /\ isa W cn_Exception (fresh_pme site) = true
+     /\ isa W cn_HTTPForbidden (fresh_forb site) = true /\ isa W cn_Exception (fresh_forb site) = true
+     /\ isa W cn_HTTPNotFound (fresh_forb site) = false) ->
+  judge_all false regs W ri sub (model_trace W ri sub) = true.
+Proof. exact model_trace_judged. Qed.
+Print Assumptions C14_model_trace_judged_partial.
+
+(* the subrequest theorem without the premise on the tween program (the outer request's program is URaise by
+   construction) *)
+Theorem C14_judge_accepts_subrequest_outer_partial : forall b regs W ri e0 pre tweens,
+  no_pm (spec_params_b b) W ->
+  (forall e, spec_ok exc_classifier_id regs (exc_request (spec_params_b b) W (set_under ri (URaise e0) pre) e)
+               (call_view (w_reg W) exc_classifier_id (exc_request (spec_params_b b) W (set_under ri (URaise e0) pre) e)) = true) ->
+  (forall site, In site [site_under; site_tween] ->
+     isa W cn_HTTPNotFound (fresh_nf site) = true /\ isa W cn_HTTPNotFound (fresh_pme site) = true
+     /\ isa W cn_Exception (fresh_pme site) = true
+     /\ isa W cn_HTTPForbidden (fresh_forb site) = true /\ isa W cn_Exception (fresh_forb site) = true
+     /\ isa W cn_HTTPNotFound (fresh_forb site) = false) ->
+  judge regs W (set_under ri (URaise e0) pre)
+        (run_request_sub_m (spec_params_b b) W (set_under ri (URaise e0) pre) tweens) = true.
+Proof. exact judge_accepts_sub_outer. Qed.
+Print Assumptions C14_judge_accepts_subrequest_outer_partial.
+
+(* LOCALISED premise (Proofs/C14_g.v): the two pipelines agree, and the rendering judge accepts the trace, whenever
+   the views the lookups of THIS request select do not raise PredicateMismatch -- worlds that contain such bodies
+   elsewhere are covered ([no_pm] implies [no_pm_selected]: C14_no_pm_selected_of_no_pm).
+   Non-vacuity: Example judge_accepts_model_local_nonvacuous. *)
+Theorem C14_run_request_pm_local : forall P W ri,
+  no_pm_selected P W ri -> run_request_pm P W ri = run_request P W ri.
+Proof. exact run_request_pm_local. Qed.
+Print Assumptions C14_run_request_pm_local.
+
+Theorem C14_no_pm_selected_of_no_pm : forall P W ri, no_pm P W -> no_pm_selected P W ri.
+Proof. exact no_pm_selected_of_no_pm. Qed.
+Print Assumptions C14_no_pm_selected_of_no_pm.
+
+Theorem C14_judge_accepts_model_local_partial : forall b regs W ri,
+  no_pm_selected (spec_params_b b) W ri ->
+  b = true \/ sec_of (ri_under ri) = true ->
+  (forall e, spec_ok exc_classifier_id regs (exc_request (spec_params_b b) W ri e)
+               (call_view (w_reg W) exc_classifier_id (exc_request (spec_params_b b) W ri e)) = true) ->
+  isa W cn_Exception ctx_resource = false ->
+  (forall site, In site [site_under; site_tween] ->
+     isa W cn_HTTPNotFound (fresh_nf site) = true /\ isa W cn_HTTPNotFound (fresh_pme site) = true
+     /\ isa W cn_Exception (fresh_pme site) = true
+     /\ isa W cn_HTTPForbidden (fresh_forb site) = true /\ isa W cn_Exception (fresh_forb site) = true
+     /\ isa W cn_HTTPNotFound (fresh_forb site) = false) ->
+  judge regs W ri (run_request_pm (spec_params_b b) W ri) = true
+  /\ judge regs W ri (run_request_gen (spec_params_b b) W ri) = true.
+Proof. exact judge_accepts_model_local. Qed.
+Print Assumptions C14_judge_accepts_model_local_partial.
